@@ -990,6 +990,9 @@ class _Frame:
             return np.einsum(args[0], *[o.astype(object) for o in ops])
         if n in ("matmul", "bmm", "mm"):
             return np.matmul(args[0], args[1])
+        if n in ("linalg.vecdot", "vecdot", "dot", "inner"):
+            a_, b_ = I._obj(args[0]), I._obj(args[1])
+            return I.osum(a_ * b_, axis=kwargs.get("dim", -1))
         if n in ("linalg.cross", "cross"):
             a, b = np.broadcast_arrays(I._obj(args[0]), I._obj(args[1]))
             ax = self._axis(args, kwargs, 2)
